@@ -2,8 +2,9 @@
 
 Correspondence: the real `MutationOperator.mutate/visit/_generic_visit*` protocol, `FirstOrderMutator`
 (historical path, sampled / reordered path), `HighOrderMutator` (all four HOM strategies) and
-`MutationController.mutant_count` are run on generated modules, hand-written operator-rich snippets and
-small pure stdlib modules; every yielded (mutations, mutant tree at yield time), the tree after the (full
+`MutationController.mutant_count` are run on generated modules (progen programs and `PlaceholderGen` modules
+whose child lists mix nodes with `None` placeholders / identifiers at random positions), hand-written
+operator-rich snippets and small pure stdlib modules; every yielded (mutations, mutant tree at yield time), the tree after the (full
 or early-stopped) enumeration and the first-order count are compared with `Driver/C28.lean`, which
 executes `Model/Mutants.lean`.  The model gets from the implementation only what the property does not
 talk about: which nodes each operator's visitors rewrite into what (read off the real visitor methods,
@@ -106,10 +107,208 @@ def classify(v, w=0.5):
     print("unobservable", total)
     return [inner(e)(1) for e in (1, 2)], r, total == 1.0, 1 < total <= 3
 ''',
+    # child lists that mix nodes with non-node entries: `None` placeholders in arguments.kw_defaults (keyword-only
+    # parameter without default before / between / after defaulted ones) and Dict.keys (`**` unpacking), identifier
+    # lists (global / nonlocal / MatchClass.kwd_attrs), optional fields that are None (slices, MatchAs, MatchStar)
+    '''
+BASE = {"x": 1, "y": 2}
+MERGED = {**BASE, "k": 2 + 3, **{"z": 3}, "w": -1}
+TOTAL = 0
+def scale(value, *, factor, offset=10, unit, digits=2 * 3, **rest):
+    global TOTAL, BASE
+    TOTAL += value * factor + offset
+    return {**rest, "unit": unit, **BASE, "value": round(value / factor, digits)}
+def window(xs, lo=None, *more, hi, step=1 + 1):
+    cut = lambda seq, *, start, stop=None, by=1: seq[start:stop:by]
+    acc = 0
+    def bump(*, by, twice=False):
+        nonlocal acc, lo
+        acc += by * 2 if twice else by
+        return acc
+    match xs:
+        case Pair(0, right=r, left=None):
+            out = r
+        case Pair(left=l) | {"left": l}:
+            out = l
+        case {"left": l, **others}:
+            out = l, others
+        case [first, *_, last] if first < last:
+            out = cut(xs, start=first)[:hi]
+        case [*_] | None:
+            out = xs[lo:hi], xs[::step], xs[:]
+        case _ as whole:
+            out = whole
+    return out, bump(by=1), bump(by=2, twice=not lo)
+class Box:
+    async def get(self, key, /, default=0, *, strict, fallback=None):
+        return {key: default, **{"strict": strict}} if strict else fallback
+    def put(self, *, key, value="v", ttl):
+        self.d = {**getattr(self, "d", {}), key: (value, ttl > 0)}
+''',
 ]
 
 SMALL_STDLIB = ["colorsys", "bisect", "keyword", "fnmatch", "reprlib", "sched", "heapq", "textwrap",
                 "shlex", "graphlib", "copy", "string", "stat", "genericpath", "numbers"]
+
+
+class PlaceholderGen:
+    """Random small modules whose syntax trees have child lists mixing nodes and non-node entries at random
+    positions (`arguments.kw_defaults` with `None` for keyword-only parameters without default, `Dict.keys` with
+    `None` for `**` unpacking), identifier lists (`global` / `nonlocal` / `MatchClass.kwd_attrs`) and optional
+    node fields that are `None` (slice parts, `MatchAs` / `MatchStar` / `MatchMapping.rest`), with operator-rich
+    expressions before and after the placeholders.  Only definitions and constant expressions run at import."""
+
+    BIN = ["+", "-", "*", "//", "%", "**", "<<", ">>", "&", "|", "^"]
+    CMP = ["<", "<=", "==", "!=", ">", ">=", "is", "is not", "in", "not in"]
+
+    def __init__(self, rng):
+        self.r = rng
+        self.n = 0
+
+    def const(self):
+        return self.r.choice(["0", "1", "2", "3", "10", "-1", "1.5", "'k'", "'mutpy'", "True", "False", "None"])
+
+    def const_expr(self, d=0):
+        """safe to evaluate at definition time (parameter defaults, module-level values)"""
+        r, x = self.r, self.r.random()
+        if d >= 2 or x < 0.35:
+            return r.choice(["0", "1", "2", "3", "10", "True", "False", "None", "'k'", "1.5"])
+        if x < 0.55:
+            return f"({r.choice(['1', '2', '7'])} {r.choice(['+', '-', '*', '//', '%', '<<', '&', '|'])} {r.choice(['1', '2', '3'])})"
+        if x < 0.65:
+            return f"({r.choice(['1', '2'])} {r.choice(['<', '<=', '==', '!=', '>', '>='])} {r.choice(['1', '3'])})"
+        if x < 0.75:
+            return r.choice(["-1", "+2", "~3", "not True", "not 0"])
+        if x < 0.9:
+            return self.dict_lit(lambda: self.const_expr(d + 1), ["BASE", "{'z': 3}", "{}"])
+        return r.choice(["(1, 2)[0:1]", "'abc'[1:]", "[1, 2, 3][::2]", "(1, 2)", "[]"])
+
+    def expr(self, names, d=0):
+        r, x = self.r, self.r.random()
+        if d >= 2 or x < 0.3 or not names:
+            return r.choice(names) if names and r.random() < 0.7 else self.const()
+        a, b = self.expr(names, d + 1), self.expr(names, d + 1)
+        if x < 0.5:
+            return f"({a} {r.choice(self.BIN)} {b})"
+        if x < 0.65:
+            op = r.choice(self.CMP)
+            if op.startswith("is"):     # no `is` with a literal (SyntaxWarning)
+                a, b = r.choice(names), r.choice(names + ["None"])
+            return f"({a} {op} {b})"
+        if x < 0.72:
+            return f"({r.choice(['-', '+', '~', 'not '])}{a})"
+        if x < 0.8:
+            return f"({a} {r.choice(['and', 'or'])} {b})"
+        if x < 0.9:
+            return self.dict_lit(lambda: self.expr(names, d + 1), names + ["BASE"])
+        lo, hi, st = (r.choice(["", a, "1", "None"]), r.choice(["", b, "-1"]), r.choice(["", "", ":2", ":" + r.choice(names)]))
+        return f"{r.choice(names)}[{lo}:{hi}{st}]"
+
+    def dict_lit(self, value, unpackable):
+        r = self.r
+        items = []
+        for i in range(r.randint(1, 5)):
+            if r.random() < 0.45:
+                items.append("**" + r.choice(unpackable))
+            else:
+                items.append(f"{r.choice([repr('k' + str(i)), str(i), repr('x')])}: {value()}")
+        return "{" + ", ".join(items) + "}"
+
+    def params(self, lead):
+        """parameter list with 1-5 keyword-only parameters, each with or without default, in random order"""
+        r = self.r
+        ps, names = list(lead), [x for x in lead if x not in ("self", "/")]
+        if "/" in ps:
+            ps = [x for x in ps if x != "/"]
+            ps.insert(r.randint(1, len(ps)), "/")
+        for i in range(r.randint(0, 2)):
+            nm = f"p{i}"
+            names.append(nm)
+            ps.append(f"{nm}={self.const_expr()}" if r.random() < 0.5 else nm)
+        # a defaulted positional may not be followed by a non-defaulted one
+        seen = False
+        for j, q in enumerate(ps):
+            if "=" in q:
+                seen = True
+            elif seen and q not in ("/",):
+                ps[j] = f"{q}={self.const()}"
+        if r.random() < 0.4:
+            ps.append("*args")
+            names.append("args")
+        else:
+            ps.append("*")
+        for i in range(r.randint(1, 5)):
+            nm = f"k{i}"
+            names.append(nm)
+            ps.append(f"{nm}={self.const_expr()}" if r.random() < 0.5 else nm)
+        if r.random() < 0.3:
+            ps.append("**kw")
+            names.append("kw")
+        return ", ".join(ps), names
+
+    def match_stmt(self, subject, names):
+        r = self.r
+        cases = r.sample([
+            f"case Pair({r.choice(['0, ', ''])}left={r.choice(['a0', 'None', '1'])}, right={r.choice(['b0', '2', '_'])}):",
+            "case Pair(left=l0) | {'left': l0}:",
+            "case {'left': l1, **others}:",
+            "case {'a': 1, 'b': b1}:",
+            "case {**everything}:",
+            f"case [first, *_, last] if first {r.choice(self.CMP[:6])} last:",
+            "case [*_] | None:",
+            "case (1 | 2) as small:",
+            "case str() | bytes():",
+        ], r.randint(1, 3)) + ["case _:"]
+        out = [f"match {subject}:"]
+        for c in cases:
+            out += ["    " + c, f"        res = {self.expr(names)}"]
+        return out
+
+    def body(self, names, globs, outer_locals, depth=0):
+        r = self.r
+        out = []
+        if globs and r.random() < 0.5:
+            out.append("global " + ", ".join(r.sample(globs, r.randint(1, len(globs)))))
+        if outer_locals and r.random() < 0.7:
+            nl = r.sample(outer_locals, r.randint(1, len(outer_locals)))
+            out.append("nonlocal " + ", ".join(nl))
+            out.append(f"{nl[0]} = {self.expr(names)}")
+        out.append(f"res = {self.expr(names)}")
+        for _ in range(r.randint(1, 2)):
+            x = r.random()
+            if x < 0.3:
+                out.append(f"d{len(out)} = {self.dict_lit(lambda: self.expr(names), names + ['BASE'])}")
+            elif x < 0.45:
+                ps, nn = self.params([])
+                out.append(f"fn{len(out)} = lambda {ps}: {self.expr(nn)}")
+            elif x < 0.6 and depth == 0:
+                ps, nn = self.params(["u"])
+                loc = ["res"]
+                out += [f"def inner{len(out)}({ps}):"] + ["    " + l for l in self.body(nn + ["res"], globs, loc, depth + 1)]
+            elif x < 0.75:
+                out += self.match_stmt(r.choice(names), names + ["res"])
+            elif x < 0.9:
+                out += [f"if {self.expr(names)}:", f"    res = {self.expr(names + ['res'])}"]
+            else:
+                out.append(f"res {r.choice(['+=', '-=', '*=', '//='])} {self.expr(names)}")
+        out.append(f"return {self.expr(names + ['res'])}")
+        return out
+
+    def function(self, name, lead=("a", "b"), indent="", decorator=None, is_async=False):
+        ps, names = self.params(list(lead))
+        head = ([indent + decorator] if decorator else []) + [f"{indent}{'async ' if is_async else ''}def {name}({ps}):"]
+        return head + [indent + "    " + l for l in self.body(names, ["TOTAL", "BASE"], [])]
+
+    def module(self):
+        r = self.r
+        lines = ["BASE = {'x': 1, 'y': 2}", f"MERGED = {self.dict_lit(self.const_expr, ['BASE', '{}'])}", "TOTAL = 0"]
+        for i in range(r.randint(1, 2)):
+            lines += self.function(f"f{i}", is_async=r.random() < 0.15)
+        if r.random() < 0.4:
+            lines += ["class Box:"] + self.function("get", lead=("self", "key", "/"), indent="    ")
+            if r.random() < 0.5:
+                lines += self.function("make", lead=("cls",), indent="    ", decorator="@classmethod")
+        return "\n".join(lines) + "\n"
 
 
 class Interner:
@@ -124,21 +323,23 @@ class Interner:
 
 
 def enc(node: ast.AST, intern) -> list:
-    """AST node -> [label, [kids]]; label = class + non-node fields + field layout; kids = the node-valued
-    fields and list elements in `_fields` order (the order `_generic_visit` walks them)."""
+    """AST node -> [label, [kids]]; label = class + non-node fields + field layout (which fields hold a node,
+    how many entries each list has); kids = the child SLOTS in
+    `_fields` order (the order `_generic_visit` walks them): one per node-valued field, one per entry of a
+    list-valued field.  A list entry that is not a node (`None` in `arguments.kw_defaults` / `Dict.keys`, the
+    strings of `Global.names` / `MatchClass.kwd_attrs`) is a placeholder `[v]` (`Tree.hole`): it keeps its
+    position, so slot paths are positions in the REAL lists."""
     parts = [type(node).__name__]
     kids = []
     for f in node._fields:
         v = getattr(node, f, None)
         if isinstance(v, list):
-            lay = []
             for x in v:
                 if isinstance(x, ast.AST):
                     kids.append(enc(x, intern))
-                    lay.append("N")
                 else:
-                    lay.append(repr(x))
-            parts.append(f + "=[" + ",".join(lay) + "]")
+                    kids.append([intern("hole|" + type(x).__name__ + ":" + repr(x))])
+            parts.append(f"{f}=[{len(v)}]")      # the entries themselves are slots; the length delimits the field
         elif isinstance(v, ast.AST):
             kids.append(enc(v, intern))
             parts.append(f + "=N")
@@ -148,6 +349,8 @@ def enc(node: ast.AST, intern) -> list:
 
 
 def thash(t) -> int:
+    if len(t) == 1:
+        return (999983 * (t[0] + 1) + 3) % M61
     acc = 17
     for k in t[1]:
         acc = (acc * 1000033 + thash(k) + 7) % M61
@@ -166,7 +369,7 @@ def node_paths(root: ast.AST) -> dict[int, tuple]:
                 for x in v:
                     if isinstance(x, ast.AST):
                         go(x, p + (i,))
-                        i += 1
+                    i += 1          # a non-node entry occupies its position
             elif isinstance(v, ast.AST):
                 go(v, p + (i,))
                 i += 1
@@ -176,8 +379,10 @@ def node_paths(root: ast.AST) -> dict[int, tuple]:
 
 def diff_paths(a, b, p=()) -> list[tuple]:
     """minimal paths at which two encoded trees differ"""
-    if a[0] != b[0] or len(a[1]) != len(b[1]):
+    if len(a) != len(b) or a[0] != b[0] or (len(a) == 2 and len(a[1]) != len(b[1])):
         return [p]
+    if len(a) == 1:
+        return []
     out = []
     for i, (x, y) in enumerate(zip(a[1], b[1])):
         out += diff_paths(x, y, p + (i,))
@@ -192,7 +397,8 @@ class C28(PropertyCheck):
     n_quick = 24
     n_thorough = 160
     n_search = 60
-    rule = ("one case = one module (progen program, operator-rich snippet or small stdlib module) x one mutator "
+    rule = ("one case = one module (progen program, module with mixed node/placeholder child lists, operator-rich "
+            "snippet or small stdlib module) x one mutator "
             "configuration (operator subset, cap, reorder, sampling seed, HOM strategy + order, optional early "
             "stop); non-trivial = distinct case whose enumeration yields at least one mutant")
     assumptions = [
@@ -203,7 +409,8 @@ class C28(PropertyCheck):
         "early-stopped enumerations are dropped by the consumer; CPython closes a dropped generator immediately",
     ]
     trusted_base_extra = [
-        "the AST -> labelled rose tree encoding of harness/c28.py (labels = class + non-node fields + layout)",
+        "the AST -> labelled rose tree encoding of harness/c28.py (labels = class + non-node fields + layout; "
+        "non-node list entries are placeholder slots)",
         "61-bit polynomial tree hash used to compare mutants (same definition in Model/Mutants.lean and c28.py)",
     ]
 
@@ -230,14 +437,23 @@ class C28(PropertyCheck):
 
     def gen_case(self, rng):
         r = rng.random()
-        if r < 0.55:
+        if r < 0.35:
             src = progen.gen_module(rng, n_funcs=1, with_class=rng.random() < 0.3, with_generator=False)
             kind = "gen"
+            if rng.random() < 0.4:      # a generated module that also has mixed child lists
+                src = src + "\n" + "BASE = {'x': 1}\nTOTAL = 0\n" + "\n".join(PlaceholderGen(rng).function("mixed")) + "\n"
+                kind = "gen+ph"
+        elif r < 0.6:
+            src = PlaceholderGen(rng).module()
+            kind = "ph"
         elif r < 0.9 or not self._stdlib():
             k = rng.randrange(len(SNIPPETS))
             src = SNIPPETS[k]
-            if rng.random() < 0.5:
+            x = rng.random()
+            if x < 0.35:
                 src = src + "\n" + "\n".join(progen.Gen(rng).function("extra"))+ "\n"
+            elif x < 0.6:
+                src = src + "\n" + ("" if k == 3 else "BASE = {'x': 1}\nTOTAL = 0\n") + "\n".join(PlaceholderGen(rng).function("mixed")) + "\n"
             kind = f"snippet{k}"
         else:
             name = rng.choice(self._stdlib())
